@@ -192,4 +192,35 @@ PROPS = {
         "trusted_base": [KERNEL, CORR, "lean/Model/Scanner.lean, lean/Model/Stream.lean (as C07)"],
         "assumptions": ["a Write returning n < len(p) returns an error (io.Writer's contract)"],
     },
+    "C17": {
+        "kind": "c17",
+        "module": "Props.C17",
+        "namespace": "Jl.C17",
+        "rule": ("probes under recover() on three rows (empty, parsed from JSON with nulls / nested rows / arrays / look-alike strings, built "
+                 "through the API with every raw type incl. a struct and a typed cell): all 16 typed getters x 14 keys (present, absent, empty, "
+                 "null, nested, unconvertible); every positional operation x indexes -1, 0, 1, 5, 100, MinInt64, MaxInt64; GetAtPath / "
+                 "GetAtPathOrNil / FindValuesAtPath / ImportAtPath x 19 paths with 0-4 segments incl. empty segments and paths ending on "
+                 "arrays, scalars and nulls; MapTo with matching, mismatching, unexported, empty, non-pointer, non-struct and nil-pointer "
+                 "targets; String/DebugString/Raw/Export/Iter; Import of nil and weird values; every Value method for 9 formats x 15 raw "
+                 "values incl. chan, func, pointers; Format(42); CreateRow with 12 weird inputs; parser and marshaller at nesting depth "
+                 "100 and 10^4 (arrays and objects). distinct = distinct probes; all non-trivial"),
+        "trusted_base": [KERNEL, EXTRACT, "the probe list (harness/path.go): execution evidence, not proof",
+                         "Props/C17.lean expectedSites: the per-site discharge arguments are reviewed comments; only the equality of the inventory is machine-checked"],
+        "assumptions": ["nil interface arguments (Value, Row, Template, reader, writer) are API misuse (DESIGN.md §10)",
+                        "stack exhaustion and runtime crashes cannot be exhibited by the model: covered by execution to depth 10^4 only"],
+    },
+    "C18": {
+        "kind": "c18",
+        "module": "Props.C18",
+        "namespace": "Jl.C18",
+        "rule": ("5 documents (objects nested to depth 6, arrays of objects, mixed arrays, nested arrays, nulls, empty keys) given as JSON "
+                 "text, as the equivalent programmatic construction, and mixed (a built row holding a parsed row holding built values); "
+                 "GetValueAtPath/GetAtPath and FindValuesAtPath for every path of 1 and 2 segments over a 28-key alphabet plus 33 "
+                 "hand-picked paths (missing at each depth, through scalars, nulls and arrays, empty segments, 6 segments) and random "
+                 "paths of 1-5 segments; ImportAtPath of 7 kinds of values at random and hand-picked paths (the whole row afterwards is "
+                 "compared). Judged against key-by-key navigation (`navigate`) and document-order collection (`collect`). distinct = "
+                 "distinct (document, op, path, value)"),
+        "trusted_base": [KERNEL, CORR, "lean/Model/Path.lean (hand-written from row.go; tied by correspondence incl. the row after ImportAtPath)"],
+        "assumptions": ["keys containing '.' are not addressable by a dotted path (excluded)"],
+    },
 }
